@@ -382,7 +382,9 @@ func runFree(res *caseResult, idx int, dir, tier string, rnd *rand.Rand) {
 	}
 	wg := newWriteGen(rnd, sc)
 	wg.monotonic, wg.allFields = true, true
-	qg := &queryGen{rnd: rnd, sc: sc, clean: true}
+	// no tag conditions either: the harness does not know which generation a free running flush wrote, so it could not
+	// tell the (known) loss of memory results behind unmatched table blocks from a new failure
+	qg := &queryGen{rnd: rnd, sc: sc, clean: true, noCond: true}
 	// noise: existing series of a metric nobody queries, and the queried metrics in an hour outside every range
 	noiseRnd := rand.New(rand.NewSource(rnd.Int63()))
 	reserved := sc.Base + int64(sc.Hours)*hourMs
